@@ -12,7 +12,7 @@ LEVEL = 'exploration'
 TECHNIQUE = 'runtime monitoring against an executable dictionary model: after every delivered UPDATE / REST send the Adj-RIB tables (direct read and REST adj-rib endpoints) and the version counters (REST version endpoint) are compared step by step with the model, across session drops'
 RULE = ('[bgp] rib = true; sequences of announce / withdraw / re-announce same / re-announce different / withdraw absent / mixed messages over '
         'a pool of IPv4 prefixes (incl. 0.0.0.0/0 and a /32), flowspec rules and VPNv4 routes with 3 attribute sets, interleaved with session '
-        'drops and re-establishment; exhaustive to length 4 over a reduced operation set, random to length 200; receive side by peer '
+        'drops (peer close, NOTIFICATION, hold expiry, stop/start) and re-establishment, the same prefix withdrawn and announced by one UPDATE, sessions used in both directions (the other direction must not move); exhaustive to length 4 over a reduced operation set, random to length 200; receive side by peer '
         'UPDATEs (reference encoder), send side through REST send/update; oracle: table == model, empty after a drop, and per message '
         '(version delta > 0) iff (the model table of that family changed), never a decrease; distinct = distinct operation sequences')
 ASSUMPTIONS = ['radix stand-in: only exact-prefix lookups that hit the Adj-RIB-In dictionary are judged, longest-match results are not',
